@@ -4,7 +4,7 @@
    whatever was analysed before; Level B: what the process shares between calls never changes.
    Every generated transition writes out its history (R2). *)
 EXTENDS Session
-CONSTANT MaxLen
+CONSTANTS MaxLen, TreeKinds     \* histories are enumerated over the request kinds 1..TreeKinds
 VARIABLES s, hist
 vars == <<s, hist>>
 
@@ -15,7 +15,7 @@ Analyze(r) == /\ Len(hist) < MaxLen
 Work == /\ s.age < MaxAge /\ s' = WorkEffect(s) /\ hist' = hist
 \* a new process: nothing is carried over
 FreshProcess == /\ (hist # <<>> \/ s.age > 0) /\ s' = InitSession /\ hist' = <<>>
-Next == (\E r \in Req : Analyze(r)) \/ Work \/ FreshProcess
+Next == (\E r \in 1..TreeKinds : Analyze(r)) \/ Work \/ FreshProcess
 Spec == Init /\ [][Next]_vars
 
 TypeOK == s.loaded \subseteq Archs /\ s.parsers \subseteq Isas /\ s.age \in 0..MaxAge
